@@ -375,13 +375,6 @@ def spec_expand(env, v):
         return None
 
 
-def m_append_present(f):
-    """known finding D8: envAppend of a value that is already an element leaves it where it was"""
-    c = f["input"]
-    return (f["kind"] == "append-last" and c["op"] == "prepend" and c["append"] and c["fwd"]
-            and c["value"].strip(c["delim"]) in elems(c["delim"], c["env"].get(c["var"], "")))
-
-
 # ------------------------------------------------------------------ driver
 
 def compare(ctx, cases):
@@ -416,7 +409,6 @@ def corpus_cases():
 
 
 def run(ctx):
-    ctx.matchers["c12.append_present"] = m_append_present
     ctx.rule = ("random envPrepend/envAppend/envSet actions (forward and unsetup mode) over 5 delimiters, "
                 "old values of 0-8 pool elements with doubled/leading/trailing delimiters or unset, values plain / "
                 "two-element / with $-references / degenerate, MANPATH flags; plus action sequences; a case is "
@@ -441,7 +433,6 @@ def run(ctx):
 
 
 def replay(ctx, path):
-    ctx.matchers["c12.append_present"] = m_append_present
     obj = json.load(open(path))
     c = obj["input"]
     compare(ctx, [c])
